@@ -127,4 +127,15 @@ theorem calls_that_draw_seeds_accounted :
        "POMDP/Algorithms/PERSEUS.hpp: BeliefGenerator bGen"] := by
   decide +kernel
 
+/-- the `rng` roles of the solver inventory are engines of the engine inventory, and every engine of a classified solver class has
+    the role `rng` (the two translators agree) -/
+theorem rng_roles_are_engines :
+    ∀ r ∈ roles, r.2 = Role.rng → (AITB.Gen.C16Rng.engines.map (fun e => (e.1, e.2.1))).contains r.1 = true := by
+  decide +kernel
+
+theorem solver_engines_have_rng_role :
+    ∀ e ∈ AITB.Gen.C16Rng.engines, AITB.Gen.Solvers.fields.contains (e.1, e.2.1) = true →
+      roles.contains ((e.1, e.2.1), Role.rng) = true := by
+  decide +kernel
+
 end AITB.Hidden
